@@ -319,7 +319,8 @@ pub fn exec_fault(c: &FaultCase, em: &mut Emitter) {
                     "unbounded-recursion" => Some(dive(0) as usize),
                     _ => {
                         let sg2 = sg.clone();
-                        let r = SchedulableCoroutine::maybe_grow_with(120 * 1024, 64 * 1024, move || {
+                        // a red zone larger than the coroutine's own 128 KiB stack: the callback must move to a new segment
+                        let r = SchedulableCoroutine::maybe_grow_with(256 * 1024, 512 * 1024, move || {
                             let co = SchedulableCoroutine::current().expect("current");
                             *sg2.lock().unwrap() = co.stack_infos().iter().map(|i| (i.stack_bottom, i.stack_top)).collect();
                             match FAULTS[cc.fault] {
@@ -418,6 +419,13 @@ pub fn judge_fault(c: &FaultCase, res: &ChildResult, rep: &mut Report) {
         rep.machinery_errors.push(format!("stk.fault: a wild access was observed with sp outside the segments ({})", c.to_json()));
     }
     rep.witness(if inside { "faults_inside_segments" } else { "faults_outside_segments" });
+    if c.fault >= 4 {
+        if e["segments"].as_u64() == Some(2) {
+            rep.witness("faults_with_a_grown_segment");
+        } else {
+            rep.machinery_errors.push(format!("stk.fault: {}: the callback did not move to a new segment ({} segment(s))", c.to_json(), e["segments"]));
+        }
+    }
 }
 
 pub fn fault_cases() -> Vec<FaultCase> {
@@ -452,7 +460,7 @@ pub fn run(scen: &str, tier: &str, rep: &mut Report) -> bool {
             // (with the default stacks a real overflow faults in the guard page, which belongs to
             // the segment; a fault with the stack pointer outside every segment is not producible
             // by these bodies, so only the inside direction is required to have occurred)
-            rep.require(&["faults_inside_segments"]);
+            rep.require(&["faults_inside_segments", "faults_with_a_grown_segment"]);
             for c in cs.iter().step_by((cs.len() / 4).max(1)).take(4) {
                 rep.sample(c.to_json());
             }
